@@ -20,7 +20,7 @@ import numpy as np
 from . import common
 from .common import Check, MachineryError, run_tlc, seed, tier
 
-RUNTIME_EVENTS = {"ext_init", "ext_set_threads", "mgr_reset", "enter", "mgr_create", "thread_setup", "kernel_compile", "kernel_call", "return"}
+RUNTIME_EVENTS = {"ext_init", "ext_wisdom", "ext_set_threads", "mgr_reset", "enter", "mgr_create", "thread_setup", "kernel_compile", "kernel_call", "return"}
 
 
 def build_request(rid):
@@ -83,6 +83,8 @@ def soft_reset():
     pyfftw.config.NUM_THREADS = 1
     numba.set_num_threads(numba.config.NUMBA_NUM_THREADS)
     _compiled_dict().clear()
+    if os.path.exists("fftw_wisdom.pkl"):
+        os.remove("fftw_wisdom.pkl")
     _verif.emit("ext_init")
 
 
@@ -101,6 +103,25 @@ def observe():
     }
 
 
+def set_wisdom(state):
+    """put the wisdom file of the working directory into the given state: missing | ok | corrupt"""
+    import pickle
+    import pyfftw
+    from bldfm import _verif
+
+    path = "fftw_wisdom.pkl"
+    if state == "missing":
+        if os.path.exists(path):
+            os.remove(path)
+    elif state == "ok":
+        with open(path, "wb") as f:
+            pickle.dump(pyfftw.export_wisdom(), f)
+    else:
+        with open(path, "wb") as f:
+            f.write(b"\x80\x04 this is not a pickle of FFTW wisdom")
+    _verif.emit("ext_wisdom", state=state)
+
+
 def apply_op(op, arg):
     from bldfm import config, _verif
     import bldfm.fft_manager as fm
@@ -111,6 +132,9 @@ def apply_op(op, arg):
         return None
     if op == "reset":
         fm.reset_fft_manager()
+        return None
+    if op == "wisdom":
+        set_wisdom(arg)
         return None
     if op == "solve":
         return solve_request(int(arg))
@@ -152,6 +176,8 @@ def validate_runtime_trace(chk, tracefile):
         r = {"e": e["ev"]}
         if e["ev"] == "ext_set_threads":
             r["n"] = e["n"]
+        elif e["ev"] == "ext_wisdom":
+            r["state"] = e["state"]
         elif e["ev"] == "enter":
             r["fp"], r["an"] = bool(e["footprint"]), bool(e["analytic"])
         elif e["ev"] == "mgr_create":
@@ -237,7 +263,12 @@ def main():
         sc = {"kind": "history", "hist": hist}
         ok = True
         for op, arg in hist:
-            res = apply_op(op, arg)
+            try:
+                res = apply_op(op, arg)
+            except Exception as ex:
+                chk.violation("operation %s(%s) raised %s: %s" % (op, arg, type(ex).__name__, str(ex)[:100]), sc, klass={"check": "exception", "op": op})
+                ok = False
+                break
             if op == "solve":
                 from bldfm import config
 
@@ -270,6 +301,8 @@ def main():
             op = ("threads", int(rng.choice([1, 2, 4, 8])))
         elif x < 0.27:
             op = ("reset", 0)
+        elif x < 0.33:
+            op = ("wisdom", str(rng.choice(["missing", "ok", "corrupt"])))
         else:
             op = ("solve", int(rng.integers(1, 9)))
         hist.append(list(op))
